@@ -4,6 +4,7 @@ package ship
 
 import (
 	"errors"
+	"time"
 
 	"github.com/enbility/ship-go/api"
 	"github.com/enbility/ship-go/zzvrt"
@@ -49,6 +50,7 @@ func (w *pWriter) IsDataConnectionClosed() (bool, error) {
 }
 
 func newPair(serverKnowsID, clientKnowsID bool) (*pEnd, *pEnd) {
+	zzvrt.SetTimerLimit(time.Second)
 	cl := &pEnd{name: "client", log: &vLog{}}
 	sv := &pEnd{name: "server", log: &vLog{}}
 	cl.peer, sv.peer = sv, cl
@@ -67,7 +69,7 @@ func newPair(serverKnowsID, clientKnowsID bool) (*pEnd, *pEnd) {
 }
 
 func (p *pEnd) afterEvent() {
-	zzvrt.RunSpawnedExcept("setHandshakeTimer") // delayed-close closures; timer goroutines stay parked
+	zzvrt.RunAll() // everything the event spawned runs; short delays elapse, handshake timers stay pending (SetTimerLimit in newEnv)
 }
 
 func (p *pEnd) deliver() {
